@@ -25,7 +25,9 @@ import (
 	"k8s.io/apimachinery/pkg/util/intstr"
 	"sigs.k8s.io/controller-runtime/pkg/client"
 
+	ingconv "github.com/jcmoraisjr/haproxy-ingress/pkg/converters/ingress"
 	convtypes "github.com/jcmoraisjr/haproxy-ingress/pkg/converters/types"
+	convutils "github.com/jcmoraisjr/haproxy-ingress/pkg/converters/utils"
 	hatypes "github.com/jcmoraisjr/haproxy-ingress/pkg/haproxy/types"
 
 	"verif/harness/lib/cfgnorm"
@@ -45,7 +47,7 @@ func popts(dir string, wide bool) pipeline.Options {
 	return o
 }
 
-var universe = sem.DefaultUniverse(world.Hosts, world.Paths)
+var universe = sem.DefaultUniverse(append(append([]string{}, world.Hosts...), world.GatewayHosts[:2]...), world.Paths)
 
 func behaviour(p *pipeline.Pipeline) (*sem.Behaviour, error) {
 	nf, err := cfgnorm.Load(p.Dir(), p.Prefix())
@@ -63,7 +65,9 @@ var lastConvLog []string
 func diverges(h [][]pipeline.Change, every bool, tag string) (int, []string, error) {
 	dir := filepath.Join(workdir, "o"+tag)
 	os.RemoveAll(dir)
-	p, err := pipeline.NewE(popts(dir+"/p", true))
+	po := popts(dir+"/p", true)
+	po.HasGatewayV1 = world.HasGatewayObjects(h)
+	p, err := pipeline.NewE(po)
 	if err != nil {
 		return -1, nil, err
 	}
@@ -167,6 +171,9 @@ func classify(h [][]pipeline.Change, diff []string) string {
 			}
 		}
 	}
+	if unskippedPathCause(h, diff) {
+		return "C01/unskipped-path-acquires-untracked-backend"
+	}
 	var shape []string
 	for _, b := range h {
 		var parts []string
@@ -180,6 +187,221 @@ func classify(h [][]pipeline.Change, diff []string) string {
 		kind = strings.SplitN(diff[0], " ", 2)[0]
 	}
 	return "C01/unclassified[" + kind + "]:" + strings.Join(shape, "|")
+}
+
+// ---- cause: a redeclared path that becomes effective acquires an untracked backend ----
+
+type pathKey struct{ host, path, ptype string }
+
+// pathOwners returns, for the cluster, the ingress (ns/name) that owns every declared path
+// (the first in sortIngress order) and the declarations of every ingress.
+func pathOwners(objs []client.Object) (map[pathKey]string, map[string][]pathKey, map[string]*networking.Ingress) {
+	var ings []*networking.Ingress
+	for _, o := range objs {
+		if ing, ok := o.(*networking.Ingress); ok {
+			ings = append(ings, ing)
+		}
+	}
+	ingconv.VerifSortIngress(ings)
+	owner := map[pathKey]string{}
+	decl := map[string][]pathKey{}
+	byName := map[string]*networking.Ingress{}
+	for _, ing := range ings {
+		name := ing.Namespace + "/" + ing.Name
+		byName[name] = ing
+		for _, r := range ing.Spec.Rules {
+			if r.HTTP == nil {
+				continue
+			}
+			for _, p := range r.HTTP.Paths {
+				pt := ""
+				if p.PathType != nil {
+					pt = string(*p.PathType)
+				}
+				path := p.Path
+				if path == "" {
+					path = "/"
+				}
+				k := pathKey{r.Host, path, pt}
+				decl[name] = append(decl[name], k)
+				if _, taken := owner[k]; !taken {
+					owner[k] = name
+				}
+			}
+		}
+	}
+	return owner, decl, byName
+}
+
+// backendIDOf resolves the backend id (ns_service_targetPort) of a path of an ingress.
+func backendIDOf(objs []client.Object, ing *networking.Ingress, k pathKey) string {
+	for _, r := range ing.Spec.Rules {
+		if r.HTTP == nil || r.Host != k.host {
+			continue
+		}
+		for _, p := range r.HTTP.Paths {
+			path := p.Path
+			if path == "" {
+				path = "/"
+			}
+			pt := ""
+			if p.PathType != nil {
+				pt = string(*p.PathType)
+			}
+			if path != k.path || pt != k.ptype || p.Backend.Service == nil {
+				continue
+			}
+			port := p.Backend.Service.Port.Name
+			if port == "" {
+				port = strconv.Itoa(int(p.Backend.Service.Port.Number))
+			}
+			for _, o := range objs {
+				if svc, ok := o.(*api.Service); ok && svc.Namespace == ing.Namespace && svc.Name == p.Backend.Service.Name {
+					if sp := convutils.FindServicePort(svc, port); sp != nil {
+						return svc.Namespace + "_" + svc.Name + "_" + sp.TargetPort.String()
+					}
+				}
+			}
+		}
+	}
+	return ""
+}
+
+// unskippedPathCause recognises, from the objects alone and then causally, the finding
+// C01/unskipped-path-acquires-untracked-backend: only backends differ; each of them is the
+// backend of a path of an unchanged ingress that another ingress owned before the last batch
+// (redeclared path, skipped) and that is effective after it; the divergence vanishes when
+// the annotations that ingress (and the services of those backends) contributes are taken
+// out of the history, or when the formerly skipped path is.
+func unskippedPathCause(h [][]pipeline.Change, diff []string) bool {
+	if len(h) < 2 || len(diff) == 0 {
+		return false
+	}
+	differing := map[string]bool{}
+	for _, d := range diff {
+		if !strings.HasPrefix(d, "backend ") {
+			return false
+		}
+		id := strings.TrimPrefix(d, "backend ")
+		if i := strings.Index(id, ":"); i > 0 {
+			id = id[:i]
+		}
+		differing[id] = true
+	}
+	before := world.Final(h[:len(h)-1])
+	after := world.Final(h)
+	ownB, declB, ingB := pathOwners(before)
+	ownA, _, ingA := pathOwners(after)
+	usedBefore := map[string]bool{}
+	for k, name := range ownB {
+		usedBefore[backendIDOf(before, ingB[name], k)] = true
+	}
+	usedBefore["ns1_svc1_8080"] = true // the backend of --default-backend-service (wide options)
+	type unsk struct {
+		name string
+		key  pathKey
+		id   string
+	}
+	var found []unsk
+	for name, keys := range declB {
+		a, still := ingA[name]
+		if !still {
+			continue
+		}
+		bj, _ := json.Marshal(ingB[name])
+		aj, _ := json.Marshal(a)
+		if string(bj) != string(aj) {
+			continue // changed in the batch: trackAddedIngress pre-tracks it
+		}
+		for _, k := range keys {
+			if ownB[k] != name && ownA[k] == name {
+				if id := backendIDOf(after, a, k); id != "" && usedBefore[id] {
+					found = append(found, unsk{name, k, id})
+				}
+			}
+		}
+	}
+	if len(found) == 0 {
+		return false
+	}
+	for id := range differing {
+		ok := false
+		for _, u := range found {
+			if u.id == id {
+				ok = true
+			}
+		}
+		if !ok {
+			return false
+		}
+	}
+	// causal check 1: strip the annotations of the newly effective ingresses and of the
+	// services of the differing backends
+	strip := func(dropPath bool) [][]pipeline.Change {
+		var out [][]pipeline.Change
+		for _, b := range h {
+			var nb []pipeline.Change
+			for _, c := range b {
+				switch x := c.Obj.(type) {
+				case *networking.Ingress:
+					cp := x.DeepCopy()
+					for _, u := range found {
+						if u.name != x.Namespace+"/"+x.Name {
+							continue
+						}
+						if !dropPath {
+							cp.Annotations = nil
+							continue
+						}
+						for ri := range cp.Spec.Rules {
+							r := &cp.Spec.Rules[ri]
+							if r.HTTP == nil || r.Host != u.key.host {
+								continue
+							}
+							var keep []networking.HTTPIngressPath
+							for _, p := range r.HTTP.Paths {
+								path := p.Path
+								if path == "" {
+									path = "/"
+								}
+								pt := ""
+								if p.PathType != nil {
+									pt = string(*p.PathType)
+								}
+								if path == u.key.path && pt == u.key.ptype {
+									continue
+								}
+								keep = append(keep, p)
+							}
+							r.HTTP.Paths = keep
+						}
+					}
+					nb = append(nb, pipeline.Change{Op: c.Op, Obj: cp})
+				case *api.Service:
+					cp := x.DeepCopy()
+					if !dropPath {
+						for id := range differing {
+							if strings.HasPrefix(id, x.Namespace+"_"+x.Name+"_") {
+								cp.Annotations = nil
+							}
+						}
+					}
+					nb = append(nb, pipeline.Change{Op: c.Op, Obj: cp})
+				default:
+					nb = append(nb, c)
+				}
+			}
+			out = append(out, nb)
+		}
+		return out
+	}
+	if i, _, err := diverges(strip(false), false, "u"); err == nil && i < 0 {
+		return true
+	}
+	if i, _, err := diverges(strip(true), false, "u"); err == nil && i < 0 {
+		return true
+	}
+	return false
 }
 
 type oracleInput struct {
@@ -600,8 +822,8 @@ func main() {
 			isCorpus = append(isCorpus, true)
 		}
 	}
-	nOracle := o.Count(80, 4000)
-	nCorr := o.Count(45, 1500)
+	nOracle := o.Count(70, 4000)
+	nCorr := o.Count(40, 1500)
 	if o.Search {
 		nOracle, nCorr = o.Count(600, 8000), 0
 	}
@@ -613,6 +835,8 @@ func main() {
 		if i%4 == 1 {
 			cfg.Annotations = false
 		}
+		// Gateway API objects sharing services and secrets with the ingresses
+		cfg.Gateway = i%4 == 2
 		histories = append(histories, world.GenHistory(rng, cfg, 1+rng.Intn(5), 3))
 		isCorpus = append(isCorpus, false)
 	}
@@ -782,7 +1006,7 @@ func main() {
 			res.Count("corrdb_known_finding_does_not_diverge")
 		}
 		runCorr(kh, true, true)
-		nDB := o.Count(30, 1000)
+		nDB := o.Count(20, 1000)
 		for i := 0; i < nDB; i++ {
 			cfg := modelConfig()
 			cfg.DefaultBackend = true
@@ -800,7 +1024,7 @@ func main() {
 		runCorr(ka, false, true, true)
 		saved := world.AnnWhitelist
 		world.AnnWhitelist = annSubset
-		nAnn := o.Count(30, 1000)
+		nAnn := o.Count(20, 1000)
 		for i := 0; i < nAnn; i++ {
 			cfg := modelConfig()
 			cfg.Annotations = true
